@@ -1,5 +1,6 @@
 import RsyncModel.GeneratorThm
 import RsyncModel.FsSitesSpec
+import RsyncModel.Daemon
 /-! # C10 — a dry run changes nothing (receiver side: generator, receive tail, directory touch-up)
 
 The file-system call sites behind these model functions are pinned by the regenerated `FsSites`
@@ -46,5 +47,16 @@ true merely because the model never changes anything) -/
 example : ∃ o e, o.dryRun = false ∧ (genStep o e none).node ≠ none :=
   ⟨⟨false, true, false, false, false, false, false, false, false, false, false, false, 0o22, 0, 0⟩,
    ⟨.lnk, 0o777, 0, 0, 0, 0, [116], 0, []⟩, rfl, by decide⟩
+
+/-- **D40, kernel-checked witness: the theorems above are about the generator and the receiver; the daemon's
+*handler* creates the requested subdirectory before anybody looks at `--dry-run`.** For the argument lines of a dry-run
+upload into `rw/new/sub/` the handler model's events contain the `MkdirAll` of that subdirectory (the same request
+against the implementation is a case of the daemon suite and a known finding). So "a dry run changes nothing" is proved
+partially: for everything the transfer does once the destination root is open. -/
+theorem dry_run_upload_creates_subdirectory_witness :
+    (match Daemon.handle [⟨"rw".toList, true, false, true⟩] "@RSYNCD: 27".toList "rw".toList
+        ["--server".toList, "-nlogDtpr".toList, ".".toList, "rw/new/sub".toList, []] with
+     | .receiver m (some s) => (Daemon.events (.receiver m (some s))).any (fun e => e == Daemon.FsEvent.mkdirAllSubdirInRoot s)
+     | _ => false) = true := by decide +kernel
 
 end C10
